@@ -4,38 +4,39 @@ use std::{vec, vec::Vec};
 use super::*;
 use crate::__verif_support::*;
 
-// E (DESIGN §4): location finite |x| <= 1e100 / 1e30, scale in [1e-100, 1e100] / [1e-30, 1e30]
-macro_rules! c03_gumbel {
-    ($name:ident, $f:ty, $logstub:path, $logfn:ident, $maxloc:expr, $minsc:expr, $maxsc:expr, $u1:expr, $mode:expr) => {
-        #[kani::proof]
-        #[kani::stub($logstub, $logfn)]
-        fn $name() {
-            let mut rng = SymRng::new(1);
-            let loc: $f = kani::any();
-            let scale: $f = kani::any();
-            // region of known finding gumbel_u1: the OpenClosed01 draw equals 1.0
-            let u_is_one = $u1(rng.words[0]);
-            if $mode == 0 {
-                kani::assume(!u_is_one);
-            } else {
-                kani::assume(u_is_one);
-            }
-            if let Ok(d) = Gumbel::<$f>::new(loc, scale) {
-                kani::assume(loc.abs() <= $maxloc && scale >= $minsc && scale <= $maxsc);
-                let x: $f = d.sample(&mut rng);
-                vassert!(x == x, "Gumbel sample is NaN");
-                vassert!(x.is_finite(), "Gumbel sample is infinite");
-                vassert!(rng.pos == 1, "Gumbel consumes exactly one word");
-                kani::cover!(true, "sample returned");
-            }
-        }
-    };
-}
 fn u1_f64(w: u64) -> bool {
     (w >> 11) == (1u64 << 53) - 1
 }
 fn u1_f32(w: u64) -> bool {
     ((w as u32) >> 8) == (1u32 << 24) - 1
+}
+
+// E (DESIGN §4): location finite |x| <= 1e100 / 1e30, scale in [1e-100, 1e100] / [1e-30, 1e30]
+macro_rules! c03_gumbel {
+    ($name:ident, $f:ty, $maxloc:expr, $minsc:expr, $maxsc:expr, $u1:expr, $mode:expr) => {
+        vproof! {
+            fn $name() {
+                let mut rng = SymRng::new(1);
+                let loc: $f = kani::any();
+                let scale: $f = kani::any();
+                // region of known finding gumbel_u1: the OpenClosed01 draw equals 1.0
+                let u_is_one = $u1(rng.words[0]);
+                if $mode == 0 {
+                    kani::assume(!u_is_one);
+                } else {
+                    kani::assume(u_is_one);
+                }
+                if let Ok(d) = Gumbel::<$f>::new(loc, scale) {
+                    kani::assume(loc.abs() <= $maxloc && scale >= $minsc && scale <= $maxsc);
+                    let x: $f = d.sample(&mut rng);
+                    vassert!(x == x, "Gumbel sample is NaN");
+                    vassert!(x.is_finite(), "Gumbel sample is infinite");
+                    vassert!(rng.pos == 1, "Gumbel consumes exactly one word");
+                    kani::cover!(true, "sample returned");
+                }
+            }
+        }
+    };
 }
 
 //@ id: c03_gumbel_f64
@@ -45,7 +46,7 @@ fn u1_f32(w: u64) -> bool {
 //@ funcs: Gumbel::<f64>::new; Gumbel::<f64>::sample; rand OpenClosed01::sample::<f64>
 //@ bounds: all (location, scale) accepted by new() and in E; every 64-bit word; 1 word
 //@ assumes: libm::log = contract c_ln64; draw != 1.0 (region of known finding gumbel_u1_f64, decided by the witness harness)
-c03_gumbel!(c03_gumbel_f64, f64, libm::log, c_ln64, 1e100, 1e-100, 1e100, u1_f64, 0);
+c03_gumbel!(c03_gumbel_f64, f64, 1e100, 1e-100, 1e100, u1_f64, 0);
 
 //@ id: c03_gumbel_f32
 //@ prop: C03
@@ -54,7 +55,7 @@ c03_gumbel!(c03_gumbel_f64, f64, libm::log, c_ln64, 1e100, 1e-100, 1e100, u1_f64
 //@ funcs: Gumbel::<f32>::new; Gumbel::<f32>::sample; rand OpenClosed01::sample::<f32>
 //@ bounds: all (location, scale) accepted by new() and in E; every 32-bit word (all 2^24 uniform values); 1 word
 //@ assumes: libm::logf = contract c_ln32; draw != 1.0 (region of known finding gumbel_u1_f32)
-c03_gumbel!(c03_gumbel_f32, f32, libm::logf, c_ln32, 1e30, 1e-30, 1e30, u1_f32, 0);
+c03_gumbel!(c03_gumbel_f32, f32, 1e30, 1e-30, 1e30, u1_f32, 0);
 
 //@ id: c03_gumbel_f64_kf_u1
 //@ prop: C03
@@ -63,7 +64,7 @@ c03_gumbel!(c03_gumbel_f32, f32, libm::logf, c_ln32, 1e30, 1e-30, 1e30, u1_f32, 
 //@ expect: fail
 //@ funcs: Gumbel::<f64>::sample
 //@ bounds: the draw equals 1.0 (word >> 11 all ones)
-c03_gumbel!(c03_gumbel_f64_kf_u1, f64, libm::log, c_ln64, 1e100, 1e-100, 1e100, u1_f64, 1);
+c03_gumbel!(c03_gumbel_f64_kf_u1, f64, 1e100, 1e-100, 1e100, u1_f64, 1);
 
 //@ id: c03_gumbel_f32_kf_u1
 //@ prop: C03
@@ -72,4 +73,49 @@ c03_gumbel!(c03_gumbel_f64_kf_u1, f64, libm::log, c_ln64, 1e100, 1e-100, 1e100, 
 //@ expect: fail
 //@ funcs: Gumbel::<f32>::sample
 //@ bounds: the draw equals 1.0 (low 32 bits >> 8 all ones)
-c03_gumbel!(c03_gumbel_f32_kf_u1, f32, libm::logf, c_ln32, 1e30, 1e-30, 1e30, u1_f32, 1);
+c03_gumbel!(c03_gumbel_f32_kf_u1, f32, 1e30, 1e-30, 1e30, u1_f32, 1);
+
+// ---- C04 ------------------------------------------------------------------------------------
+macro_rules! c04_gumbel {
+    ($name:ident, $f:ty) => {
+        vproof! {
+            fn $name() {
+                let loc: $f = kani::any();
+                let scale: $f = kani::any();
+                let r = Gumbel::<$f>::new(loc, scale);
+                // documented: LocationNotFinite "location is infinite or NaN";
+                //             ScaleNotPositive  "scale is not finite positive number"
+                let conds = [loc.is_infinite() || loc != loc, !(scale > 0.0 && scale < <$f>::INFINITY)];
+                let res = match &r {
+                    Ok(_) => None,
+                    Err(Error::LocationNotFinite) => Some(0),
+                    Err(Error::ScaleNotPositive) => Some(1),
+                };
+                c04_judge(res, conds);
+                if let Ok(d) = r {
+                    vassert!(d.location.to_bits() == loc.to_bits() && d.scale.to_bits() == scale.to_bits(),
+                        "Gumbel::new does not store its arguments");
+                }
+                kani::cover!(res.is_none(), "Ok reachable");
+                kani::cover!(res == Some(0), "LocationNotFinite reachable");
+                kani::cover!(res == Some(1), "ScaleNotPositive reachable");
+            }
+        }
+    };
+}
+//@ id: c04_gumbel_f64
+//@ prop: C04
+//@ tier: quick
+//@ cap: 300
+//@ funcs: Gumbel::<f64>::new
+//@ bounds: every pair of f64 bit patterns (NaN payloads, +-0, subnormals, +-inf included)
+//@ assumes: none
+c04_gumbel!(c04_gumbel_f64, f64);
+//@ id: c04_gumbel_f32
+//@ prop: C04
+//@ tier: quick
+//@ cap: 300
+//@ funcs: Gumbel::<f32>::new
+//@ bounds: every pair of f32 bit patterns
+//@ assumes: none
+c04_gumbel!(c04_gumbel_f32, f32);
